@@ -81,6 +81,9 @@ pub fn generate(kind: &str, seed: u64) -> Option<Vec<u8>> {
             let src = gen_syn(&mut rng).text;
             mutate_tokens(&src, &mut rng).into_bytes()
         }
+        // property blocks, attributes and redefinitions (c08_props.rs): random programs, the seed-th variant of the sweep
+        "props" => gen_props(&mut rng).text.into_bytes(),
+        "propone" => props_single(seed as usize)?.into_bytes(),
         "prog" => {
             let p = gen_program(&mut rng, &progen_opts());
             render(&p, &|_| true).into_bytes()
@@ -693,6 +696,25 @@ pub fn plan(rng: &mut Rng, scale: u64, thorough: bool, repo: &str, hist: &mut Hi
             specs.push(format!("{}:{}", kind, seed));
         }
     }
+    // property blocks / attributes / redefinitions (c08_props.rs): the whole sweep, every variant once per check, + random
+    // blocks.  Their random choices come from a generator of their own (a copy of the current state, nothing is consumed), and
+    // their requests are appended after the others: the requests of the older streams are the same as before for a given seed
+    let mut prng = Rng(rng.0 ^ 0x7072_6f70_7331);
+    let mut props_specs: Vec<String> = Vec::new();
+    for c in props_categories() {
+        hist.0.entry(format!("cat/props/{}", c)).or_insert(0);
+    }
+    for (k, (c, _)) in props_variants().iter().enumerate() {
+        hist.add(&format!("cat/props/{}", c));
+        props_specs.push(format!("propone:{}", k));
+    }
+    for _ in 0..per(150) {
+        let seed = prng.next() >> 20;
+        for c in &gen_props(&mut Rng::new(seed)).cats {
+            hist.add(&format!("cat/props/{}", c));
+        }
+        props_specs.push(format!("props:{}", seed));
+    }
     // typed constant expressions in every constant context (typer/src/evaluator.rs)
     for _ in 0..per(200) {
         let seed = rng.next() >> 20;
@@ -726,11 +748,17 @@ pub fn plan(rng: &mut Rng, scale: u64, thorough: bool, repo: &str, hist: &mut Hi
         }
     }
     let mut reqs = Vec::new();
-    for spec in specs {
+    let n_old = specs.len();
+    specs.extend(props_specs);
+    for (si, spec) in specs.into_iter().enumerate() {
+        // the appended property streams draw from their own generator
+        let rng: &mut Rng = if si < n_old { &mut *rng } else { &mut prng };
         let names = super::materialise(&spec).map(|m| pipeline_names(&m.bytes)).unwrap_or_default();
         let heavy = spec.starts_with("repo:") || spec.starts_with("rmut:");
         // the preprocessor does not depend on the target beyond RSSL_TARGET_*: one HLSL flavour + Metal in quick
-        let two_targets = heavy || spec.starts_with("cx:") || spec.starts_with("pp:") || spec.starts_with("ppmut:") || spec.starts_with("synone:");
+        let two_targets = heavy || spec.starts_with("cx:") || spec.starts_with("pp:") || spec.starts_with("ppmut:") || spec.starts_with("synone:") || spec.starts_with("props:");
+        // the sweep of property / attribute / redefinition variants is decided by the type checker: one target per variant in quick
+        let one_target = spec.starts_with("propone:");
         let defs: Vec<(String, String)> = if rng.chance(1, 5) {
             let (n, v) = *rng.pick(API_DEFINES);
             vec![(n.to_string(), v.to_string())]
@@ -748,7 +776,9 @@ pub fn plan(rng: &mut Rng, scale: u64, thorough: bool, repo: &str, hist: &mut Hi
             }
             continue;
         }
-        let targets: Vec<Tgt> = if two_targets && !thorough { vec![*rng.pick(&[Tgt::Dx, Tgt::Vk, Tgt::VkBa]), Tgt::Msl] } else { ALL_TARGETS.to_vec() };
+        let targets: Vec<Tgt> = if one_target && !thorough {
+            vec![*rng.pick(&ALL_TARGETS)]
+        } else if two_targets && !thorough { vec![*rng.pick(&[Tgt::Dx, Tgt::Vk, Tgt::VkBa]), Tgt::Msl] } else { ALL_TARGETS.to_vec() };
         for tgt in targets {
             let mode = if heavy && names.is_empty() { if rng.chance(3, 4) { Mode::NoPipeline } else { pick_mode(rng, &names) } } else { pick_mode(rng, &names) };
             reqs.push(Req { tgt, mode, layout: rng.chance(1, 2), defs: defs.clone(), input: spec.clone() });
@@ -767,3 +797,4 @@ include!("c08_grammar.rs");
 include!("c08_pp.rs");
 include!("c08_syn.rs");
 include!("c08_cx.rs");
+include!("c08_props.rs");
